@@ -140,6 +140,15 @@ def check(ctx):
             sets = [e for e in own if e.kind == "SETATTR" and e.a["obj"] == SELF]
             muts = [e for e in own if e.kind == "MCALL" and e.a["obj"] == B]
             if D is None:
+                if bp.exit_kind() == "raise" and any(x.kind == "BUFINDEX" for x in bp.walk()):
+                    # an exception out of the framer ends this call of dataReceived with the bytes still buffered and whatever else
+                    # the chunk held unprocessed: where the chunk boundary falls decides what is dispatched
+                    bi = [x for x in bp.walk() if x.kind == "BUFINDEX"]
+                    ctx.ob("F4", "%s the framer raises nothing while a packet is incomplete" % cq, False, where=where(bi[-1]) if bi else where(outer),
+                           function=framer_q, construct="%s/raises-on-partial-input" % framer_q,
+                           msg="%s leaves the framer on a partial packet%s: whether the packets of a chunk are dispatched depends on where the "
+                               "chunk was cut" % (show(bp.exit[1]), (" (%s[%s] read without a length test)" % (show(bi[-1].a["base"]), show(bi[-1].a["key"]))) if bi else ""))
+                    continue
                 # F4 / F6(b)
                 ctx.ob("F4", "%s a path that dispatches nothing leaves the carry alone" % cq, not sets and not muts,
                        where=where((sets + muts)[0]) if sets + muts else where(outer), function=framer_q, construct="%s/carry-modified-without-dispatch" % framer_q,
@@ -387,3 +396,25 @@ def offset_idiom(ctx, cls, cq, prog, p0, ent, outer, B, carry, framer_q, framer,
     ctx.ob("F3", "%s width scan starts at offset+1" % cq, scan_ok, where=w0, function=framer_q, construct="%s/scan-start" % framer_q,
            msg="the scan of the remaining-length field does not start one byte after the packet's first byte")
     return n
+
+
+def framing_premise(ctx, rule, consequence):
+    """The framing lemma as a premise of a property about inbound packets: whatever a handler does right is of no use when the
+    packet does not reach it, reaches it short, or drags a neighbour along.  Runs the C03 rules and reports their failures
+    under `rule` of the calling property (one instance per failed construct, one for the lot when all hold)."""
+    from ..report import Ctx
+    sub = Ctx("C03", ctx.a, ctx.tier)
+    check(sub)
+    seen = set()
+    for f in sub.findings:
+        key = (f.rule, f.construct)
+        if key in seen:
+            continue
+        seen.add(key)
+        ctx.ob(rule, "framing premise %s %s" % (f.rule, f.construct), False, file=f.file, line=f.line, function=f.function,
+               construct="framing/%s/%s" % (f.rule, f.construct),
+               msg="%s (C03 %s) - %s" % (f.message, f.rule, consequence))
+    if not seen:
+        ctx.ob(rule, "inbound packets reach their handlers framed as the broker sent them (%d instances of the framing lemma's premises F1-F7)"
+               % len(sub.obligations), True, where="src/mqtt/client/base.py", construct="framing/premises")
+    ctx.count("framing_premise_instances", len(sub.obligations))
